@@ -13,7 +13,9 @@
 (*               between) rebuilds the mapping and re-selects among the    *)
 (*               still valid candidates;                                   *)
 (*   Start       marks the selected nodes (one action with Validate; with  *)
-(*               Compute for drift, which does not wait);                  *)
+(*               Compute for drift and static drift, which do not wait;    *)
+(*               static drift starts one command per selected node, as     *)
+(*               many as the pool's allowance lasts);                      *)
 (*   Complete/Fail  the orchestration queue deletes the NodeClaim of a     *)
 (*               marked node, or rolls the command back (unmark).          *)
 (* The controller is modelled by what the code does (mapping, decrement,   *)
@@ -31,7 +33,7 @@ EXTENDS BudgetGuards, TLC, Json
 
 CONSTANTS N,            \* nodes are 1..N
           PoolOf,       \* node -> pool name
-          KindOf,       \* node -> "empty" | "drifted" | "under" : which method may select it
+          KindOf,       \* node -> "empty" | "drifted" | "under" | "sdrifted" : which method may select it
           InitPhase,    \* node -> initial phase
           Pools,        \* set of pool names
           BudgetsOf,    \* pool -> budget list (records of BudgetGuards)
@@ -53,10 +55,10 @@ vars == <<nd, now, pend, ok, rounds, h>>
 Nodes == 1..N
 Phases == {"absent", "claim", "registered", "init", "gone"}
 NoCmd == [reason |-> "-", method |-> "-", sel |-> {}]
-Methods == {"emptiness", "multi", "single", "drift"}
-ReasonOf(m) == CASE m = "emptiness" -> "Empty" [] m = "drift" -> "Drifted" [] OTHER -> "Underutilized"
-KindFor(m) == CASE m = "emptiness" -> "empty" [] m = "drift" -> "drifted" [] OTHER -> "under"
-Waits(m) == m # "drift"
+Methods == {"emptiness", "multi", "single", "drift", "sdrift"}
+ReasonOf(m) == CASE m = "emptiness" -> "Empty" [] m \in {"drift", "sdrift"} -> "Drifted" [] OTHER -> "Underutilized"
+KindFor(m) == CASE m = "emptiness" -> "empty" [] m = "drift" -> "drifted" [] m = "sdrift" -> "sdrifted" [] OTHER -> "under"
+Waits(m) == m \notin {"drift", "sdrift"}
 ValidationDelay == 15
 
 \* the node table as the property sees it (BudgetGuards node records)
